@@ -71,6 +71,10 @@ CLAIMED = {
             "CrossHair confirms over all paths that for symbolic loss histories (len<=4), patience and min_delta the real conditions stop at exactly the "
             "specified epoch and hand back the best model, for float and non-float scalar representations; the inductive step covers any history length.",
             "Bounds: len<=4, patience<=3 (5), losses in [0,100]; non-float scalars modelled by a wrapper + float() stub, validated with genuine np.float32/jax scalars.", "4/C19"),
+    "C08": (JX, "symbolic execution of the jaxprs of the real norm / nonlinearity / pooling blocks with symbolic parameters; exact argmax encoding (ITE) under tie-freeness; eigh as a contract stub; z3 (QF_UFNRA)",
+            "For each enumerated block configuration and every g z3 proves block(g.x) = g.block(x) for ALL inputs and ALL learnable parameter values "
+            "(and patch-multiple shifts for pooling); max-pool under the statement's unique-maximiser precondition.",
+            "Spectral lemma behind eigh is ASSUMED (stub contract + column-sign obligation), see DESIGN 2.3; activations uninterpreted; bounded N (2..6), channels<=4.", "4/C08"),
 }
 
 NOT_YET = {}
